@@ -12,10 +12,10 @@
               try_push_back calls, writes through references, data(), max_size(), independence of a copy. *)
 From Tetl Require Import Lib.Base Lib.Arr C06a.Model C01.Model C01.Spec C01.ModelExt C01.SpecExt.
 From Tetl Require Import C01.ProofsBase C01.ProofsStep C01.ProofsIv C01.ProofsExt C01.ProofsExt2 C01.ProofsStack
-  C01.ProofsIvExt C01.ProofsFast.
+  C01.ProofsIvExt C01.ProofsFast C01.ProofsIndep.
 Local Open Scope Z_scope.
 
-(** 1. One-step refinement for all 44 static_vector operations (the 28 of Properties.v and the 16 new ones):
+(** 1. One-step refinement for all 43 static_vector operations (the 28 of Properties.v and the 15 new ones):
     whenever the std::vector specification defines the call, the model of the etl code returns normally with the same
     returned values (iterator offsets, reference offsets, counts, elements read through reverse / const iterators and
     data()), reaches the specified abstract state, keeps the invariant, and agrees on everything observable. *)
@@ -27,7 +27,7 @@ Theorem C01_xstep_refines : forall pred c s o s1 out, Z.of_nat c < 2 ^ 63 ->
 Proof. intros pred c s o s1 out Hc Ha Hb. exact (xstep_refines pred c Hc s o Ha Hb s1 out). Qed.
 Print Assumptions C01_xstep_refines.
 
-(** 2. History refinement: every history over the 44 operations that std::vector accepts within the capacity, started
+(** 2. History refinement: every history over the 43 operations that std::vector accepts within the capacity, started
     on two freshly constructed static_vectors of ANY capacity, yields step by step the outputs and observations of
     std::vector. *)
 Theorem C01_xvector_refines_std : forall pred c ops outs, Z.of_nat c < 2 ^ 63 ->
@@ -47,7 +47,7 @@ Theorem C01_xhistory_refines : forall pred c ops s outs, Z.of_nat c < 2 ^ 63 ->
 Proof. intros pred c ops s outs Hc. exact (xrun_refines pred c Hc ops s outs). Qed.
 Print Assumptions C01_xhistory_refines.
 
-(** 3. Safety of the 44 operations for ALL arguments: never UB, never out of fuel, and a normal return keeps the
+(** 3. Safety of the 43 operations for ALL arguments: never UB, never out of fuel, and a normal return keeps the
     invariant — in particular the storage still has exactly Capacity cells (capacity never changes). *)
 Theorem C01_xno_ub_invariant : forall pred c s o, Z.of_nat c < 2 ^ 63 ->
   inv c (fst s) -> inv c (snd s) ->
@@ -61,6 +61,16 @@ Proof.
   intros s' out H. pose proof (xstep_safe pred c Hc s o Ha Hb Harg') as S. rewrite H in S. exact S.
 Qed.
 Print Assumptions C01_xno_ub_invariant.
+
+(* every state reachable from two freshly constructed vectors by ANY history (no restriction on the arguments)
+   satisfies the invariant — so "inv c (fst s) /\ inv c (snd s)" in the theorems of this file and of Properties.v reads
+   "s is a reachable content state" *)
+Theorem C01_reachable_invariant : forall pred c ops s, Z.of_nat c < 2 ^ 63 ->
+  xexec pred (empty_vec c, empty_vec c) ops = Some s -> inv c (fst s) /\ inv c (snd s).
+Proof.
+  intros pred c ops s Hc H. apply (xexec_inv c Hc pred ops (empty_vec c, empty_vec c) s); cbn [fst snd]; auto using empty_inv.
+Qed.
+Print Assumptions C01_reachable_invariant.
 
 (** 4. Contract exactness of the new operations (with Properties.C01_contract_fires for the old ones): whenever the
     specification does not define the call, a TETL_PRECONDITION stops it.  size_t arguments are read as size_t values
@@ -90,6 +100,24 @@ Theorem C01_copy_independent : forall pred c t s s1, Z.of_nat c < 2 ^ 63 -> inv 
 Proof. exact copy_independent. Qed.
 Print Assumptions C01_copy_independent.
 
+(* the same for a stack assigned from another stack and an inplace_vector assigned from another inplace_vector
+   (operations naming exactly one object: st_touches_only / iv_touches_only) *)
+Theorem C01_stack_copy_independent : forall c t s s1, Z.of_nat c < 2 ^ 63 -> inv c (fst s) -> inv c (snd s) ->
+  st_step s (StCopyAssign t) = Ok (s1, []) ->
+  elems (sel t s1) = elems (sel (negb t) s1) /\ sel (negb t) s1 = sel (negb t) s /\
+  forall u ops s2, Forall (fun o => st_touches_only u o = true) ops -> st_exec s1 ops = Some s2 ->
+    sel (negb u) s2 = sel (negb u) s1.
+Proof. exact st_copy_independent. Qed.
+Print Assumptions C01_stack_copy_independent.
+
+Theorem C01_inplace_vector_copy_independent : forall c t s s1, Z.of_nat c < 2 ^ 63 -> inv c (fst s) -> inv c (snd s) ->
+  iv_xstep s (IvCopyAssign t) = Ok (s1, []) ->
+  elems (sel t s1) = elems (sel (negb t) s1) /\ sel (negb t) s1 = sel (negb t) s /\
+  forall u ops s2, Forall (fun o => iv_touches_only u o = true) ops -> iv_xexec s1 ops = Some s2 ->
+    sel (negb u) s2 = sel (negb u) s1.
+Proof. exact iv_copy_independent. Qed.
+Print Assumptions C01_inplace_vector_copy_independent.
+
 (** 6. etl::stack<T, static_vector<T, N>> refines std::stack (a LIFO list, head = top; st_abs = reversed container):
     one step, whole histories from two default-constructed stacks, and contract exactness (push on a full stack,
     pop / top on an empty one, construction from a container that does not fit). *)
@@ -116,7 +144,7 @@ Theorem C01_stack_contract_fires : forall c s o, Z.of_nat c < 2 ^ 63 ->
 Proof. intros c s o _. exact (st_step_contract_fires c s o). Qed.
 Print Assumptions C01_stack_contract_fires.
 
-(** 7. inplace_vector, all 25 operations (the 9 of Properties.v and the 16 new ones, copy/move assignment included). *)
+(** 7. inplace_vector, all 24 operations (the 9 of Properties.v and the 15 new ones, copy/move assignment included). *)
 Theorem C01_inplace_vector_xstep_refines : forall c s o s1 out, Z.of_nat c < 2 ^ 63 ->
   inv c (fst s) -> inv c (snd s) ->
   iv_xspec_step (Z.of_nat c) (abs s) o = Some (s1, out) ->
